@@ -259,6 +259,32 @@ class Trail:
         self.log.append((obj, key, old))
 
 
+# frame condition "no module-level state is written": containers that live in a module or class namespace of the
+# repository are registered after their module has been loaded; a write to one of them during an exploration is logged
+GLOBAL_OBJS = {}      # id(value) -> (qualified name, value)
+GLOBAL_WRITES = {}    # qualified name -> number of writes seen
+LOADING = [0]         # >0 while module-level code is being executed
+
+
+def register_global(name, v, depth=0):
+    if not isinstance(v, Mutable) or id(v) in GLOBAL_OBJS or depth > 2:
+        return
+    GLOBAL_OBJS[id(v)] = (name, v)
+    items = []
+    if type(v).__name__ == 'PList':
+        items = [x for _, x in getattr(v, 'items', ())]
+    elif type(v).__name__ == 'PDict':
+        items = [e[1] for e in getattr(v, 'd', {}).values() if isinstance(e, tuple) and len(e) > 1]
+    for x in items:
+        register_global(name + '[..]', x, depth + 1)
+
+
+def note_global_write(obj):
+    if not LOADING[0] and id(obj) in GLOBAL_OBJS:
+        nm = GLOBAL_OBJS[id(obj)][0]
+        GLOBAL_WRITES[nm] = GLOBAL_WRITES.get(nm, 0) + 1
+
+
 class Mutable:
     """base for trail-logged mutable values; locations are (self, key)."""
     trail = None  # set by the path context (class attribute: one path runs at a time)
@@ -273,6 +299,9 @@ class Mutable:
         tr = Mutable.trail
         if tr is not None:
             tr.record(self, key, self._loc_get(key))
+        if not LOADING[0] and id(self) in GLOBAL_OBJS:
+            nm = GLOBAL_OBJS[id(self)][0]
+            GLOBAL_WRITES[nm] = GLOBAL_WRITES.get(nm, 0) + 1
         self._loc_set_raw(key, val)
 
 
